@@ -32,6 +32,8 @@ class Model:
     def __init__(self):
         self.pending = []  # dict(kind, sid, ts)
         self.n = 0
+        self.share = False  # every EV event refers to the SAME car / session (re-plug in the period it leaves, reused session ids)
+        self.car = None
 
 
 def _new_event(cx, model, kind, tag):
@@ -42,8 +44,13 @@ def _new_event(cx, model, kind, tag):
     if kind == "Recompute":
         ev = A.RecomputeEvent(ts)
     else:
-        sid = "sess%d" % model.n
-        car = A.EV(0, 9, 5.0, "st%d" % model.n, sid, A.Battery(50, 0, 7))
+        if model.share and model.car is not None:
+            car = model.car
+            sid = car.session_id
+        else:
+            sid = "sess%d" % model.n
+            car = A.EV(0, 9, 5.0, "st%d" % model.n, sid, A.Battery(50, 0, 7))
+            model.car = car
         ev = (A.PluginEvent if kind == "Plugin" else A.UnplugEvent)(ts, car)
     model.pending.append(dict(kind=kind, sid=sid, ts=ts))
     return ev
@@ -62,7 +69,7 @@ def _match(cx, model, ev, label):
     kind = ev.event_type
     sid = getattr(ev, "session_id", None) if kind != "Recompute" else None
     cands = [p for p in model.pending if p["kind"] == kind and p["sid"] == sid]
-    if kind != "Recompute":
+    if kind != "Recompute" and len(cands) <= 1:
         if len(cands) != 1:
             cx.check(label + ":returned_event_is_pending", False, note="no pending %s for %s" % (kind, sid))
             return None
@@ -70,7 +77,7 @@ def _match(cx, model, ev, label):
         cx.check(label + ":timestamp_attr", eq(ev.timestamp, ent["ts"]))
         cx.check(label + ":precedence_attr", ev.precedence == PREC[kind])
     else:
-        # recompute events carry no identity: any pending one with this timestamp
+        # recompute events (and several events of one kind for one shared car) carry no identity: any pending one with this timestamp
         cx.check(label + ":returned_event_is_pending", or_(*[eq(ev.timestamp, p["ts"]) for p in cands]) if cands else False)
         ent = None
         for p in cands:
@@ -103,10 +110,11 @@ def _observers(cx, model, q, label, last=False):
             cx.check(label + ":last_timestamp_is_pending", or_(*[eq(last, p["ts"]) for p in model.pending]))
 
 
-def h_queue(cx, fixed_ops, n_free, init=1):
+def h_queue(cx, fixed_ops, n_free, init=1, share=False):
     env.install_json(cx)
     A = acn()
     model = Model()
+    model.share = share
     # the constructor path (add_events) with `init` initial events of forked kinds
     q = A.EventQueue([_new_event(cx, model, cx.choice("k_init%d" % j, ["Unplug", "Plugin", "Recompute"]), "init") for j in range(init)])
     ops = list(fixed_ops)
@@ -195,4 +203,8 @@ def jobs(tier):
     for f in ([("json",), ("cur",)] if q else [("json",), ("cur",), ("json", "addP"), ("json", "addU"), ("addR", "json")]):
         js.append(Job("init2[%s+%d]" % (",".join(f), n_free), h_queue, dict(fixed_ops=f, n_free=n_free, init=2), functions=FUNCS, max_paths=2000000, timeout=12000,
                       bounds=dict(initial_events=2, operations=len(f) + n_free, first_ops=list(f), alphabet=OPS, timestamps="[0,%d]" % TMAX), cost=9))
+    # every EV event belongs to one and the same session (an unplug and a plug-in of the same car may be pending for the same period)
+    for f in ([("cur",), ("get",), ("json",)] if q else [("cur",), ("get",), ("json",), ("addP", "cur"), ("addU", "get"), ("addU", "json"), ("addP", "json")]):
+        js.append(Job("shared_car[%s+%d]" % (",".join(f), n_free), h_queue, dict(fixed_ops=f, n_free=n_free, init=2, share=True), functions=FUNCS, max_paths=2000000, timeout=12000,
+                      bounds=dict(initial_events=2, operations=len(f) + n_free, first_ops=list(f), alphabet=OPS, timestamps="[0,%d]" % TMAX, sessions="all EV events share one EV object / session id"), cost=9))
     return js
